@@ -243,7 +243,7 @@ class Impl:
                     r = self.rx[a[0]]
                     if a[2] == "method" and r._model is not None:
                         r.remove_from_model(remove_orphans=bool(a[1]))
-                    elif a[2] == "id":
+                    elif a[2] == "id" and self.listed("R", a[0]):     # (an identifier names whatever the model has under it)
                         M.remove_reactions([r.id], remove_orphans=bool(a[1]))
                     else:
                         M.remove_reactions([r], remove_orphans=bool(a[1]))
@@ -576,8 +576,9 @@ def precond(im, o, last=True, in_block=False):
                 return False
             if n == "AddGroups" and addable(im, o[1]) is False:
                 return False
-            if n == "RemoveGroups" and o[2] == "id" and (len(o[1]) != 1 or not isinstance(im.gp[o[1][0]].id, str)):
-                return False
+            if n == "RemoveGroups" and o[2] == "id" and (len(o[1]) != 1 or not isinstance(im.gp[o[1][0]].id, str) or
+                                                         (not im.listed("P", o[1][0]) and im.gp[o[1][0]].id in im.model.groups)):
+                return False            # (an identifier names whatever the model has under it, not this object)
         elif n in ("AddMembers", "RemoveMembers"):
             if not 0 <= o[1] < size["P"] or not o[2] or any(not 0 <= k < size[c] for c, k in o[2]):
                 return False
@@ -596,6 +597,8 @@ def precond(im, o, last=True, in_block=False):
         elif n == "RemoveMet":
             if not 0 <= o[1] < size["M"]:
                 return False
+            if not im.listed("M", o[1]) and im.mt[o[1]].id in im.model.metabolites:
+                return False            # another object of the model has this identifier (kernel I: one object per id)
         elif n == "RemoveGenes":
             if not o[1] or any(i < 0 for i in o[1]):
                 return False
@@ -895,26 +898,46 @@ def cut_after(case, step):
     return {"cfg": case["cfg"], "ops": ops + [["Exit"]] * max(d, 0)}
 
 
-def shrink(case, want, ctx=False, rounds=30):
+def kind_of(sig):
+    return (sig["op"], tuple(sig["codes_at_step"]), tuple(sig["symptoms"]), sig.get("res"), sig.get("id_setter_of"))
+
+
+def shrink(case, want, ctx=False, rounds=30, own=None, kind=None):
+    """Greedy shrinking; a candidate is only accepted if its first failing step fails in the same way (same operation,
+    codes, symptoms and result) - otherwise shrinking could drift into one of the known findings."""
+    own = own or want
+
+    def fails(c, lst, ob):
+        mine = [(s_, c_) for s_, c_ in lst if c_ in own]
+        if ob is None or not any(c_ in want for _, c_ in mine):
+            return None
+        first = min(s_ for s_, _ in mine)
+        cut = cut_after(c, first)
+        if kind is not None and kind_of(make_sig(c, ob, mine, ctx)) != kind:
+            return None
+        return cut
     cur = case
-    r, f, _ = evaluate([cur], ctx)
-    if f or 0 not in r or not any(code in want for _, code in r[0]):
+    r, f, im = evaluate([cur], ctx)
+    if f or 0 not in r:
         return cur
-    cur = cut_after(cur, min(s for s, code in r[0] if code in want))
+    got = fails(cur, r[0], im[0])
+    if got is None:
+        return cur
+    cur = got
     for _ in range(rounds):
         cands = simpler(cur, ctx)
         if not cands:
             break
         try:
-            r, f, _ = evaluate(cands, ctx)
+            r, f, im = evaluate(cands, ctx)
         except Exception:  # noqa
             break
         if f:
             break
         got = None
         for i in sorted(r):
-            if any(code in want for _, code in r[i]):
-                got = cut_after(cands[i], min(s for s, code in r[i] if code in want))
+            got = fails(cands[i], r[i], im[i])
+            if got is not None:
                 break
         if got is None or got == cur:
             break
@@ -1037,7 +1060,7 @@ def make_sig(case, impl_case, lst, ctx):
 
 
 def report(rep, args, cases, res, impl, own, ctx):
-    seen, reported, n_fail = set(), [], 0
+    seen, reported, n_fail, n_new = set(), [], 0, 0
     for idx in sorted(res):
         mine = [(s, c) for s, c in res[idx] if c in own]
         if not mine:
@@ -1045,18 +1068,20 @@ def report(rep, args, cases, res, impl, own, ctx):
         n_fail += 1
         first = min(s for s, _ in mine)
         codes = tuple(sorted({c for s, c in mine if s == first}))
-        o = cases[idx]["ops"][first - 1] if first >= 1 else ["init"]
-        key = (codes, o[0], o[1] if o[0] == "SetId" else None)
-        if key in seen or len(seen) >= 10:
+        # one report per distinct signature (the signature only looks at the first failing step and, for contexts, at
+        # the block it closes); a failure that has the signature of a known finding is not shrunk
+        sig0 = make_sig(cases[idx], impl[idx], mine, ctx)
+        key = json.dumps(sig0, sort_keys=True)
+        if key in seen:
             continue
         seen.add(key)
-        # a failure that already has the signature of a known finding is not shrunk (the signature only looks at the
-        # first failing step and, for contexts, at the block it closes)
-        sig0 = make_sig(cases[idx], impl[idx], mine, ctx)
         if any(K.matches(f["signature"], sig0) for f in getattr(rep, "findings", [])):
             reported.append({"signature": sig0, "status": rep.violation(sig0, {"kernel": "groups", "case": cases[idx]})})
             continue
-        small = cases[idx] if args.replay else shrink(cases[idx], set(codes), ctx)
+        n_new += 1
+        if n_new > 8:
+            continue
+        small = cases[idx] if args.replay else shrink(cases[idx], set(codes), ctx, own=own, kind=kind_of(sig0))
         r2, _, impl2 = evaluate([small], ctx)
         lst2 = [(s, c) for s, c in (r2.get(0) or []) if c in own]
         if impl2[0] is None or not lst2:
@@ -1277,8 +1302,14 @@ if __name__ == "__main__":
 
     class _Rep:
         violations = 0
+        known = set()
+        findings = K.load_findings("C03" if os.environ.get("GROUPS_CTX") else "C02")
 
         def violation(self, sig, replay, no_input=False):
+            for f in self.findings:
+                if not no_input and K.matches(f["signature"], sig):
+                    self.known.add(f["key"])
+                    return "known"
             self.violations += 1
             print("VIOLATION(groups, stand-alone)", json.dumps(sig), json.dumps(replay.get("case")), replay.get("failing_steps"))
             print("   ", "\n    ".join(replay.get("python", [])))
@@ -1286,5 +1317,6 @@ if __name__ == "__main__":
     rp = _Rep()
     cov = (run_ctx if os.environ.get("GROUPS_CTX") else run)(rp, a, random.Random(a.seed))
     cov.pop("samples", None)
+    cov["known_findings_seen"] = sorted(rp.known)
     print(json.dumps(cov, indent=1))
     sys.exit(1 if rp.violations else 0)
